@@ -26,39 +26,58 @@ HarnessFaults == {"scratch result rejected", "opcode outside the fragment", "una
 Written(e, gens) == SelectSeq(gens, LAMBDA id : e.nodes[id].op # "UnwrittenStorageValue")
 WritesTo(s, key) == SelectSeq(s.writes, LAMBDA w : w[1] = key)
 
+(* --- known findings are excused where they happen, not along the whole path ------------------------------- *)
+(* e.taint lists <<offset, tag>> for the instructions of this path that ran into a known finding (see            *)
+(* known_findings.json): SIGNEXTEND; ADDMOD / MULMOD whose intermediate exceeds 2^256; BYTE with an index         *)
+(* >= 2^253.  A symbolic node is tainted when it was built at such an instruction or is computed from a tainted  *)
+(* node.  A disagreement is excused only if EVERY disagreeing item is tainted; the verdict then carries the tags. *)
+TagOrder == <<"addmod-overflow", "byte-huge-offset", "signextend">>
+TaintAt(e, ip) == {t[2] : t \in {x \in ToSet(e.taint) : x[1] = ip}}
+RECURSIVE NodeTaint(_, _)
+NodeTaint(e, id) ==
+    LET n == e.nodes[id] IN
+    TaintAt(e, n.ip) \cup UNION {NodeTaint(e, n.kids[k]) : k \in 1..Len(n.kids)}
+
+RECURSIVE Join(_)
+Join(seq) == IF Len(seq) = 0 THEN "" ELSE "/" \o Head(seq) \o Join(Tail(seq))
+
+(* ids: the nodes of the disagreeing items *)
+Excuse(e, name, ids) ==
+    IF ids = {} THEN {}
+    ELSE IF \A id \in ids : NodeTaint(e, id) # {}
+         THEN LET all == UNION {NodeTaint(e, id) : id \in ids} IN
+              {name \o Join(SelectSeq(TagOrder, LAMBDA t : t \in all))}
+         ELSE {name}
+
 PathVerdict(e, s) ==
     IF ~s.ok THEN (IF s.why \in HarnessFaults THEN {"Harness/" \o s.why} ELSE {"Inv_C07_Path/" \o s.why})
     ELSE IF ~Denotes(e.nodes) THEN {"Harness/symbolic node claim rejected"}
     ELSE
       (* stack: same depth, same words, top first *)
-      (IF Len(e.stack) = Len(s.stack) /\ \A i \in 1..Len(e.stack) : Claim(e, e.stack[i]) = s.stack[i]
-       THEN {} ELSE {"Inv_C07_Stack"})
+      (IF Len(e.stack) # Len(s.stack) THEN {"Inv_C07_Stack"}
+       ELSE Excuse(e, "Inv_C07_Stack", {e.stack[i] : i \in {j \in 1..Len(e.stack) : Claim(e, e.stack[j]) # s.stack[j]}}))
       (* memory: every word the symbolic memory holds at a constant offset is the concrete word there, *)
       (* and every concrete word is present                                                            *)
-      \cup (IF /\ \A m \in ToSet(e.memory) :
-                     LET off == SmallVal(Claim(e, m[1])) IN
-                     off >= 0 /\ Len(m[2]) > 0 /\ Claim(e, m[2][Len(m[2])]) = MemAt(s.mem, off)
+      \cup (IF /\ \A m \in ToSet(e.memory) : SmallVal(Claim(e, m[1])) >= 0 /\ Len(m[2]) > 0
                /\ \A off \in DOMAIN s.mem : \E m \in ToSet(e.memory) : SmallVal(Claim(e, m[1])) = off
-            THEN {} ELSE {"Inv_C07_Memory"})
-      (* storage: per key, exactly the writes of this path, in order *)
-      \cup (IF /\ \A k \in ToSet(e.storage) :
-                     LET key == Claim(e, k[1])
-                         mine == Written(e, k[2])
-                         conc == WritesTo(s, key) IN
-                     /\ Len(mine) = Len(conc)
-                     /\ \A i \in 1..Len(mine) : Claim(e, mine[i]) = conc[i][2]
+            THEN Excuse(e, "Inv_C07_Memory",
+                        {m[2][Len(m[2])] : m \in {x \in ToSet(e.memory) :
+                                                    Claim(e, x[2][Len(x[2])]) # MemAt(s.mem, SmallVal(Claim(e, x[1])))}})
+            ELSE {"Inv_C07_Memory"})
+      (* storage: per key, exactly the writes of this path, in order; one entry per key *word*: structurally *)
+      (* different keys that denote one slot must not be kept apart                                          *)
+      \cup (IF /\ \A k \in ToSet(e.storage) : Len(Written(e, k[2])) = Len(WritesTo(s, Claim(e, k[1])))
                /\ \A w \in ToSet(s.writes) : \E k \in ToSet(e.storage) : Claim(e, k[1]) = w[1]
-               \* one entry per key *word*: structurally different keys that denote one slot must not be kept apart
                /\ \A k1, k2 \in ToSet(e.storage) : Claim(e, k1[1]) = Claim(e, k2[1]) => k1 = k2
-            THEN {} ELSE {"Inv_C07_Storage"})
+            THEN Excuse(e, "Inv_C07_Storage",
+                        UNION {LET mine == Written(e, k[2])
+                                   conc == WritesTo(s, Claim(e, k[1])) IN
+                               {mine[i] : i \in {j \in 1..Len(mine) : Claim(e, mine[j]) # conc[j][2]}}
+                               : k \in ToSet(e.storage)})
+            ELSE {"Inv_C07_Storage"})
 
-(* Known ways in which the denotation fails, recognised by what the path did (see known_findings.json): *)
-(*   signextend       SIGNEXTEND stores its operands under swapped field names                          *)
-(*   addmod-overflow  ADDMOD / MULMOD are built as (a op b) mod n on wrapping 256-bit nodes              *)
-(*   byte-huge-offset BYTE computes 0xf8 - 8 * i, which wraps for i >= 2^253                             *)
-(*   key-alias        storage is keyed on the structure of the key, so 1 + 1 and 2 are different slots    *)
-RECURSIVE Join(_)
-Join(seq) == IF Len(seq) = 0 THEN "" ELSE "/" \o Head(seq) \o Join(Tail(seq))
+(* A program that itself addresses one slot through two different key expressions runs into the finding about   *)
+(* structural keys (tag key-alias, given by the generator for the whole program).                               *)
 Tagged(e, names) == IF Len(e.tags) = 0 THEN names ELSE {n \o Join(e.tags) : n \in names}
 
 JudgeRec(e, s) == IF e.ev = "path" THEN Tagged(e, PathVerdict(e, s)) ELSE IF e.ev = "path-panic" THEN {"Inv_C07_Total"} ELSE {}
